@@ -414,7 +414,13 @@ static char *probe_str;
 static void str_render(char *out, long long k, unsigned int variant)
 {
     unsigned int ii;
-    sprintf(out, "key%06lldx", k);
+    /* keys come in fours that differ only in their last character - '[' '\\' '{' '|':
+     * punctuation is not letter case - the comparator is strcasecmp's order, in which the two are different keys, '[' first */
+    if (k >= 0) {
+        static const char last[] = "[\\{|";      /* in strcasecmp's order: 0x5b < 0x5c < 0x7b < 0x7c */
+        sprintf(out, "key%06lld%c", k - (k % 4), last[k % 4]);
+    } else
+        sprintf(out, "key%06lldx", k);
     for (ii = 0; out[ii]; ++ii)
         if ((variant >> (ii % 8)) & 1)
             out[ii] = toupper((unsigned char)out[ii]);
